@@ -304,6 +304,11 @@ TypeOK == /\ ob \in 0..256 /\ (ls = 0 \/ IsLead(ls)) /\ pos <= N /\ Len(peek) <=
 CfgPlain == [A |-> 0, B |-> 0, inv |-> FALSE, pass |-> FALSE, stopnm |-> FALSE, lnum |-> TRUE, term |-> "lf"]
 CfgPass == [CfgPlain EXCEPT !.pass = TRUE]
 
+\* the known deviation (dependency encoding_rs_io): a UTF-8 mark is removed but does NOT override an explicit label: the
+\* rest is decoded as the label says.  Emitted so that the harness can tell this behaviour from any other wrong one.
+\* (not for shift_jis: the decode table taken from encoding_rs covers the generated tokens only)
+AltDec == IF scn.bom = "u8" /\ scn.label \in {"utf-16le", "utf-16be", "latin1"}
+          THEN DecodeAs(Drop(inp.bytes, 3), EncOfLabel(scn.label)) ELSE <<>>
 Emitted == Done =>
   LET dec == Decode(inp.bytes, scn.label) IN
   /\ ModelSane(dec, CfgPlain) /\ ModelSane(dec, CfgPass)
@@ -311,5 +316,6 @@ Emitted == Done =>
                               strip |-> Stripped(BomOf(inp.bytes), scn.label), clause |-> Clause(scn),
                               mal |-> ne + (IF eff = "sj" /\ scn.odd THEN 1 ELSE 0) + (IF eff = "u8" THEN BadBytes(inp.bytes) ELSE 0), flush |-> fl, cuts |-> cuts, ck |-> ck,
                               ref |-> Expected(dec, CfgPlain), refp |-> Expected(dec, CfgPass),
+                              altdec |-> AltDec, altref |-> Expected(AltDec, CfgPlain), altrefp |-> Expected(AltDec, CfgPass),
                               ok |-> (out = dec)])>>)
 =============================================================================
